@@ -10,6 +10,8 @@ Only property theorems live here.
 import Desverif.Proofs.NdlTotal
 import Desverif.Proofs.NdlRoundtrip
 import Desverif.Proofs.NdlInst
+import Desverif.Proofs.NdlWire
+import Desverif.Proofs.NdlDenote
 namespace C18
 open Ndl
 
@@ -74,21 +76,73 @@ theorem display_fromStr_roundtrip_generics (t : TypClause GenericsDef) (hi : Ide
     (fun g h => generics_display_clean g (ha g h).1 (ha g h).2)
     (mapM_parseGenerics_display _ ha)
 
-/-- **Built simulation, modules and gates (the proved part of `transform_sound_complete`).**
-    Whenever instantiating an elaborated tree succeeds, the simulation contains exactly the modules
-    the tree denotes — pre-order paths `a`, `a.b[1]`, … after expanding submodule clusters, each with
-    the software symbol of its node and exactly its gate clusters (`name`, `size`, every `pos`) —
-    no more and no fewer, whatever the connections are.  The same holds of the denotation
-    `Spec.worldOf`, so model and denotation agree on modules, symbols and gates.
-    NOT proved (checked on every generated case by the driver instead): that `transform d` equals
-    the top-down denotation `Spec.denoteTree d`, and that the connection slots / channel metrics of
-    `instantiate` equal those of `Spec.worldOf`. -/
+/-- **Built simulation, modules and gates.**  Whenever instantiating an elaborated tree succeeds, the
+    simulation contains exactly the modules the tree denotes — pre-order paths `a`, `a.b[1]`, … after
+    expanding submodule clusters, each with the software symbol of its node and exactly its gate
+    clusters (`name`, `size`, every `pos`) — no more and no fewer, whatever the connections are. -/
 theorem instantiate_modules_gates_exact (reg : Str → Bool) (n : Node) (w : World)
     (h : instantiate reg n = .ok w) :
     w.map ModInst.sig = (Spec.modsOf [] n).map denotedSig ∧
     ∀ w', Spec.worldOf reg n = .ok w' → w'.map ModInst.sig = w.map ModInst.sig := by
   refine ⟨instantiate_sig reg n w h, fun w' h' => ?_⟩
   rw [worldOf_sig reg n w' h', instantiate_sig reg n w h]
+
+/-- **Built simulation, connections.**  For every tree on which instantiation succeeds, the
+    interleaved creation-and-wiring of `SimBuilderScoped::ndl` (children are created *and wired*
+    before their later siblings exist) produces the very world the denotation describes (create all
+    denoted modules, then apply all denoted connection requests, children first): the same modules,
+    gates, and — per gate — the same connection slots in the same order with the same peer gates and
+    the same channel metrics (bitrate, latency, jitter, queue).  No more and no fewer. -/
+theorem instantiate_connections_exact (reg : Str → Bool) (n : Node) (w : World)
+    (h : instantiate reg n = .ok w) : Spec.worldOf reg n = .ok w := instantiate_worldOf reg n w h
+
+/-- **Elaboration = denotation (partial: no type arguments).**  For every description with pairwise
+    distinct module identifiers in which no submodule type carries type arguments (generic modules may
+    be declared and their parameters used as placeholders, but `G(C)` does not occur), in every
+    hash-map iteration order: if the memoised bottom-up `transform` (dependency-ordered work list, table
+    of finished archetypes; inheritance, cluster expansion, cluster-to-cluster connections, links)
+    succeeds with tree `n`, then the top-down denotation `Spec.denoteTree` — no work list, no table,
+    endpoint expansion as a list comprehension — is exactly `n`.
+    MISSING for the full `transform_eq_denotation`: the `G(C, …)` branch (`substArgs` by symbol name
+    vs. the positional replacement of the denotation), and the converse/error direction. -/
+theorem transform_eq_denotation_partial (d : Def)
+    (hu : Spec.allDistinct (d.modules.map (·.1.ident)) = true) (hna : Spec.noTypeArgs d = true)
+    (n : Node) (h : transform d = .ok n) : Spec.denoteTree d = .ok n :=
+  transform_denoteTree d hu hna n h
+
+/-- **transform_sound_complete (partial: no type arguments).**  Under the hypotheses of
+    `transform_eq_denotation_partial`: if `transform` succeeds and building the simulation succeeds,
+    the simulation is exactly ⟦d⟧ — modules, symbols, gate clusters, connections, link parameters. -/
+theorem transform_sound_complete_partial (reg : Str → Bool) (d : Def)
+    (hu : Spec.allDistinct (d.modules.map (·.1.ident)) = true) (hna : Spec.noTypeArgs d = true)
+    (n : Node) (w : World) (ht : transform d = .ok n) (hi : instantiate reg n = .ok w) :
+    Spec.denote reg d = .ok w := by
+  unfold Spec.denote
+  rw [transform_denoteTree d hu hna n ht]
+  exact instantiate_worldOf reg n w hi
+
+/-- **Why the model rejects (partial `error_kinds_descriptive`: three kinds, at their origin).**
+    (1) the ordering loop fails only with `UnresolvableDependency(stuck)` where `stuck` is a non-empty
+    list of given modules each of which requires a symbol no ordered module provides (unknown name or
+    cycle); (2) `iter_for_kardinality_access` fails only with `ConnectionIndexOutOfBounds(access)`, and
+    only for an index into an atom or an index `≥` the declared size; (3) `transform_gates` fails only
+    with `InvalidGate(module, gate)` for a declared gate cluster of size 0. -/
+theorem error_kinds_descriptive_partial :
+    (∀ (d : Def) (f : Fail), orderLoop (entries d).length [] (entries d) [] = .error f →
+      ∃ (stuck : List Entry) (p' : List Str),
+        f = .err .unresolvableDependency (stuck.map (·.ident.ident)) {} ∧ stuck ≠ [] ∧
+        (∀ e ∈ stuck, e ∈ entries d) ∧ ∀ e ∈ stuck, ∃ s ∈ e.deps, s ∉ p') ∧
+    (∀ (dcl a : FieldDef) (f : Fail), kardAccess dcl a = .error f →
+      f = .err .connectionIndexOutOfBounds [a.display] {} ∧
+      ((dcl.kard = .atom ∧ ∃ i, a.kard = .cluster i) ∨
+        ∃ n i, dcl.kard = .cluster n ∧ a.kard = .cluster i ∧ n ≤ i)) ∧
+    (∀ (ident : Str) (defs : List GateDef) (f : Fail), transformGates ident defs = .error f →
+      ∃ g ∈ defs, g.kard = .cluster 0 ∧
+        f = .err .invalidGate [ident, g.ident] { gate := some g.display }) := by
+  refine ⟨?_, kardAccess_error, transformGates_error⟩
+  intro d f h
+  obtain ⟨stuck, p', e1, e2, e3, _, e5⟩ := orderLoop_error _ [] (entries d) [] f (Nat.le_refl _) h
+  exact ⟨stuck, p', e1, e2, e3, e5⟩
 
 /-! ### non-vacuity -/
 
@@ -145,6 +199,21 @@ def tiny : Node :=
 /-- `instantiate_modules_gates_exact` is not vacuous: 3 modules (`""`, `h[0]`, `h[1]`), 4 gates -/
 example : ((instantiate (fun _ => true) tiny).toOption.map fun w =>
     (w.length, (w.map fun m => m.gates.length).sum)) = some (3, 4) := by decide
+
+/-- a description inside the fragment of `transform_eq_denotation_partial` with inheritance, a generic
+    declaration, clusters and a cluster-to-cluster connection -/
+def plainSample : RawDef :=
+  { entry := "A".toList
+    modules :=
+      [ ⟨"A".toList, some "C".toList, ["o[2]".toList], [("h[2]".toList, "C".toList)],
+          [⟨"h/port".toList, "o".toList, some "fast".toList⟩]⟩,
+        ⟨"G(T <- C)".toList, none, [], [("t".toList, "T".toList)], []⟩,
+        ⟨"C".toList, none, ["port".toList], [], []⟩ ]
+    links := [("fast".toList, ⟨5, 0, 1000, none⟩)] }
+
+example : ((parseDef plainSample).toOption.map fun d =>
+    (Spec.allDistinct (d.modules.map (·.1.ident)), Spec.noTypeArgs d, summary (transform d))) =
+    some (true, true, ("ok", 1, 2)) := by decide
 
 /-- the hypotheses of the round-trip theorems are met by ordinary clauses -/
 example : FieldOk ⟨"host".toList, .cluster 12⟩ := ⟨by decide, by decide⟩
